@@ -263,7 +263,7 @@ theorem act_einv {cur rest} {s : St} (a : Act) (h : EInv cur rest s) : EInv cur 
         (shutdown_hupEof (h.hupEof d))
     · exact h
   | wakeup => exact armSig_einv (h.congr rfl rfl rfl rfl rfl rfl)
-  | exit => exact h.congr rfl rfl rfl rfl rfl rfl
+  | exit => exact armSig_einv (h.congr rfl rfl rfl rfl rfl rfl)
   | xexit => exact armSig_einv (h.congr rfl rfl rfl rfl rfl rfl)
 
 theorem runActs_einv {cur rest} (as : List Act) {s : St} (h : EInv cur rest s) :
@@ -361,7 +361,7 @@ theorem act_qinv {c : Nat} {s : St} (a : Act) (h : QInv c s) : QInv c (act a s) 
         rw [this]; exact h.q
     · exact h
   | wakeup => exact armSig_qinv ⟨h.reg, h.q⟩
-  | exit => exact ⟨h.reg, h.q⟩
+  | exit => exact armSig_qinv ⟨h.reg, h.q⟩
   | xexit => exact armSig_qinv ⟨h.reg, h.q⟩
 
 theorem runActs_qinv {c : Nat} (as : List Act) {s : St} (h : QInv c s) : QInv c (runActs as s) := by
